@@ -518,7 +518,7 @@ def gen_case(r, k, quick=True):
     elif m in ("cc", "kc"):
         nsteps = c["N"] + r.randint(1, 4)
     else:
-        nsteps = min((nstg + 1) * c["N"] + r.randint(1, 3), 40)
+        nsteps = min((nstg + 1) * c["N"] + r.randint(1, 3) + (2 * c["N"] if r.random() < 0.25 else 0), 48)   # sometimes well beyond the documented run length
     # events: values near centres/walls, across the period; segmentation aimed at stage boundaries
     seg = r.choice(["none", "none", "B", "R", "BR", "BR"])
     ev = []
@@ -1181,6 +1181,50 @@ def manifold_part(run, r, runner, n):
                 break
 
 
+def tsf_part(run, runner):
+    """timeStepFactor f > 1: the bias is updated every f steps.  Continuous schedules are evaluated at the updated steps
+    (and are stale in between, by design); staged schedules test exact step numbers and miss them (recorded finding)."""
+    def scen(extra, nsteps, k):
+        L = ["echo CASE %d" % k, "natoms 1", "new", "capture", "config EOF"] + colvar_block(0, {"w": 0.5, "per": False}) + [
+            "harmonic {", "  name r", "  colvars v0", "  centers 1.0", "  forceConstant 2.0"] + extra + ["  timeStepFactor 2", "}", "EOF",
+            "show atomf 0 cv 0 energy 0 bias 0", "pos 1 0 0 %s" % hx(0.5)]
+        return L + ["step", "rdump"] * nsteps + ["echo END %d" % k]
+    scn = scen(["  targetCenters 3.0", "  targetNumSteps 4"], 8, 0)                          # continuous centres
+    scn += scen(["  targetForceConstant 4.0", "  targetNumSteps 4", "  lambdaExponent 2"], 8, 1)   # continuous k
+    scn += scen(["  targetCenters 3.0", "  targetNumSteps 4", "  targetNumStages 2"], 12, 2)    # staged centres: moves due at steps 1, 5, 9
+    scn += scen(["  targetForceConstant 4.0", "  targetNumSteps 3", "  targetNumStages 2"], 8, 3)   # staged k: stage ends at 3, 6
+    rc2, iout, e2 = V.run_lines(runner.unit, scn, cwd=runner.scratch)
+    impl = parse_impl(iout)
+    for k in range(4):
+        cs = impl.get(k)
+        run.dist("timeStepFactor")
+        if cs is None or not cs["complete"] or any("err=ok" not in l for l in cs["config"]):
+            run.mismatch("timestepfactor", k, ((cs or {}).get("config", []) + (cs or {}).get("raw", []))[-3:], "complete run")
+            continue
+        run.count("tsf%d" % k, True)
+        for o in cs["steps"]:
+            t = o["it"]
+            tu = t - t % 2            # last updated step
+            rp = {"kind": "tsf", "scenario": k, "steps": [(q["it"], q["C"], q["K"]) for q in cs["steps"]]}
+            if k == 0:
+                want = 1.0 + 2.0 * min(1.0, tu / 4.0)
+                if not close(o["C"][0], want):
+                    run.violation("timestepfactor:continuous-centers", "timeStepFactor 2, step %d: centre %r, schedule at the last updated step %d prescribes %r" % (t, o["C"][0], tu, want), rp)
+            elif k == 1:
+                want = 2.0 + 2.0 * min(1.0, tu / 4.0) ** 2
+                if not close(o["K"], want):
+                    run.violation("timestepfactor:continuous-k", "timeStepFactor 2, step %d: k %r, schedule at the last updated step %d prescribes %r" % (t, o["K"], tu, want), rp)
+            elif k == 2:
+                nm = 0 if tu <= 0 else min(3, (tu - 1) // 4 + 1)
+                want = 1.0 if nm == 0 else 1.0 + 2.0 * (nm - 1) / 2.0
+                if not close(o["C"][0], want):
+                    run.violation("timestepfactor:staged-schedule-misses-steps", "timeStepFactor 2, centres 1->3, targetNumSteps 4, 2 stages, step %d: centre %r, schedule (at the last updated step %d) prescribes %r" % (t, o["C"][0], tu, want), rp)
+            else:
+                want = 2.0 + 2.0 * min(2, tu // 3) / 2.0
+                if not close(o["K"], want):
+                    run.violation("timestepfactor:staged-schedule-misses-steps", "timeStepFactor 2, k 2->4, targetNumSteps 3, 2 stages, step %d: k %r, schedule (at the last updated step %d) prescribes %r" % (t, o["K"], tu, want), rp)
+
+
 def setup():
     V.extract_model("C06", EXTRACT, DRIVER, ["ocaml/fops.ml"])
     V.build_prog("c06unit", PROGS["c06unit"])
@@ -1279,6 +1323,7 @@ def check(run):
     abmd_part(run, r, runner, 40 if quick else 2000)
     hist_part(run, r, runner, 40 if quick else 2500)
     manifold_part(run, r, runner, 60 if quick else 3000)
+    tsf_part(run, runner)
     run.cov["correspondence"].update({"scenarios": len(cases), "regression_scenarios": len(wit)})
 
 
